@@ -2,6 +2,7 @@ package scen
 
 import (
 	"math/rand"
+	"sort"
 	"time"
 
 	"verif/harness/gen"
@@ -37,3 +38,70 @@ func CreateRacesWithDestroyedGroup(r *rand.Rand) *Scenario {
 	return s
 }
 
+
+// ShrinkingExplicitEnd (targeted scenario shared by C01 and C05): an alert is submitted with an explicit end far in the future and re-submitted
+// (another sender, another validity window) with an EARLIER explicit end that still overlaps; the
+// documented merge keeps the later end. Every component - the API, the aggregation groups, the
+// notifications - must go on treating it as firing until that later end.
+func ShrinkingExplicitEnd(r *rand.Rand) *Scenario {
+	gw := gen.Pick(r, []time.Duration{time.Second, 10 * time.Second})
+	gi := gen.Pick(r, []time.Duration{30 * time.Second, time.Minute})
+	ri := gen.Pick(r, []time.Duration{5 * time.Minute, time.Hour})
+	gb := []string{"alertname"}
+	cfg := &Config{ResolveTimeout: 5 * time.Minute,
+		Route:     &model.RouteSpec{Receiver: "r0", GroupBy: &gb, GroupWait: &gw, GroupInterval: &gi, RepeatInterval: &ri},
+		Receivers: []Receiver{{Name: "r0", Integs: []Integ{{SendResolved: true}}}}}
+	s := &Scenario{Config: cfg, Duration: 45 * time.Minute, Probes: true, ProbeEvery: 3 * time.Minute}
+	l := model.Labels{"alertname": "A", "sev": "crit"}
+	t0 := time.Duration(1+r.Intn(30))*time.Second + time.Duration(1+r.Intn(998))*time.Millisecond
+	long := gen.Pick(r, []time.Duration{25 * time.Minute, 35 * time.Minute})
+	short := gen.Pick(r, []time.Duration{90 * time.Second, 4 * time.Minute})
+	so := -time.Minute
+	s.Ops = append(s.Ops, Op{At: t0, Kind: "alerts", Alerts: []PostSpec{{Labels: l, StartOff: &so, EndOff: &long, Ann: model.Labels{"v": "long"}}}})
+	so2 := -time.Minute - 20*time.Second
+	s.Ops = append(s.Ops, Op{At: t0 + 20*time.Second, Kind: "alerts", Alerts: []PostSpec{{Labels: l, StartOff: &so2, EndOff: &short, Ann: model.Labels{"v": "short"}}}})
+	if r.Intn(2) == 0 { // a companion in the same group, so that flushes go on
+		far := 60 * time.Minute
+		for at := t0 + time.Millisecond; at < s.Duration; at += 4 * time.Minute {
+			s.Ops = append(s.Ops, Op{At: at, Kind: "alerts", Alerts: []PostSpec{{Labels: model.Labels{"alertname": "A", "sev": "warn"}, EndOff: &far}}})
+		}
+	}
+	sort.SliceStable(s.Ops, func(i, j int) bool { return s.Ops[i].At < s.Ops[j].At })
+	return s
+}
+
+
+// AdjacentLabelBoundaries (targeted, C01/C04): two alerts of one group whose label sets read the same
+// once names and values are written back to back ({disk="1a"} / {disk1="a"}); the second starts firing
+// after the first was notified and must be notified as a new firing member of the group.
+func AdjacentLabelBoundaries(r *rand.Rand) *Scenario {
+	gw := gen.Pick(r, []time.Duration{time.Second, 10 * time.Second})
+	gi := gen.Pick(r, []time.Duration{30 * time.Second, time.Minute})
+	ri := time.Hour
+	gb := []string{"alertname"}
+	cfg := &Config{ResolveTimeout: 5 * time.Minute,
+		Route:     &model.RouteSpec{Receiver: "r0", GroupBy: &gb, GroupWait: &gw, GroupInterval: &gi, RepeatInterval: &ri},
+		Receivers: []Receiver{{Name: "r0", Integs: []Integ{{SendResolved: true}}}}}
+	s := &Scenario{Config: cfg, Duration: 12 * time.Minute}
+	pairs := [][2]model.Labels{
+		{{"alertname": "A", "disk": "1a"}, {"alertname": "A", "disk1": "a"}},
+		{{"alertname": "A", "a": "bc"}, {"alertname": "A", "ab": "c"}},
+		{{"alertname": "A", "job": "x", "jo": "bx"}, {"alertname": "A", "job": "x", "job2": "y", "jo": "bx"}},
+		{{"alertname": "A", "n": "12"}, {"alertname": "A", "n1": "2"}},
+	}
+	p := pairs[r.Intn(len(pairs))]
+	if r.Intn(2) == 0 {
+		p[0], p[1] = p[1], p[0]
+	}
+	far := 30 * time.Minute
+	t0 := time.Duration(1+r.Intn(20))*time.Second + time.Duration(1+r.Intn(998))*time.Millisecond
+	t1 := t0 + gw + time.Duration(1+r.Intn(3))*gi + gi/3
+	for at := t0; at < s.Duration; at += 3 * time.Minute {
+		s.Ops = append(s.Ops, Op{At: at, Kind: "alerts", Alerts: []PostSpec{{Labels: p[0], EndOff: &far}}})
+	}
+	for at := t1; at < s.Duration; at += 3 * time.Minute {
+		s.Ops = append(s.Ops, Op{At: at, Kind: "alerts", Alerts: []PostSpec{{Labels: p[1], EndOff: &far}}})
+	}
+	sort.SliceStable(s.Ops, func(i, j int) bool { return s.Ops[i].At < s.Ops[j].At })
+	return s
+}
